@@ -57,6 +57,7 @@ class FakeWS:
         self.conn_id, self.script, self.log, self.on_step = conn_id, list(script), log, on_step
         self.closed = False
         self._wake = asyncio.Event()
+        self._subscribed = asyncio.Event()     # a server only streams channel data after a subscription arrived
         self.quiescent_at = None
 
     def __aiter__(self):
@@ -74,6 +75,10 @@ class FakeWS:
                 await self._wake.wait()
                 self._wake.clear()
                 continue
+            if not self._subscribed.is_set():
+                await self._subscribed.wait()
+                if self.closed:
+                    raise StopAsyncIteration
             step = self.script.pop(0)
             await asyncio.sleep(0.3 if step[0] == "delay" else 0.01)
             if self.closed:
@@ -96,11 +101,14 @@ class FakeWS:
 
     async def send_str(self, s):
         loop = asyncio.get_event_loop()
+        await asyncio.sleep(0.004)          # a real socket write may suspend
         self.log.append((self.conn_id, "sent", json.loads(s), loop.time()))
+        self._subscribed.set()
 
     async def close(self):
         self.closed = True
         self._wake.set()
+        self._subscribed.set()
 
 
 class FakeSession:
@@ -123,11 +131,16 @@ class FakeSession:
 
             async def __aexit__(s, *a):
                 s.ws.closed = True
+                sess.log.append((s.ws.conn_id, "exit", asyncio.get_event_loop().time()))
                 return False
         return CM()
 
-    def post(self, url, **kw):      # bitstamp websockets token
-        return Resp({"token": "tok", "user_id": 77})
+    def post(self, url, **kw):      # bitstamp websockets token (a REST round trip that takes a while)
+        class SlowResp(Resp):
+            async def __aenter__(self_):
+                await asyncio.sleep(0.03)
+                return self_
+        return SlowResp({"token": "tok", "user_id": 77})
 
     def get(self, url, **kw):
         return Resp({})
@@ -169,6 +182,7 @@ class FakeSpotAccountCli:
         self.fail_first = fail_first
 
     async def create_listen_key(self):
+        await asyncio.sleep(0.03)           # a REST round trip: other things happen meanwhile
         self.k += 1
         if self.fail_first and self.k == 1:
             raise aiohttp.ClientError("listen key creation failed")
@@ -323,8 +337,10 @@ def scenario(ctx, client="binance", steps1=2, steps2=1):
     for conn in range(len(connects)):
         subs = subscribed_streams(conn)
         qt = [r[2] for r in log if r[0] == conn and r[1] == "quiescent"]
-        # (a connection that went quiet less than half a second before the horizon may not have subscribed yet)
-        if not qt or ended(conn) is not None or qt[0] + 0.5 > out["end"]:
+        left = [r[2] for r in log if r[0] == conn and r[1] == "exit"]
+        # (a connection that went quiet less than half a second before the horizon, or that was torn down within half
+        # a second - e.g. because creating the listen key failed - may not have subscribed yet)
+        if not qt or ended(conn) is not None or qt[0] + 0.5 > out["end"] or (left and left[0] < qt[0] + 0.5):
             continue
         # every channel registered before this connection went quiet is subscribed on THIS connection
         if client == "binance":
